@@ -4,7 +4,7 @@ One inductive step per operation from an arbitrary symbolic state satisfying the
 RI: bins = len(PSD) = len(PSDsize) = len(PSDbounds)-1, PSDbounds[i] = min + i*(max-min)/bins, 0 < min < max,
 PSDsize midpoints, PSD >= 0.  Plus bounded histories from reset() as a cross-check of RI's adequacy.
 """
-import itertools
+import itertools, contextlib, io
 import numpy as np
 from vk.run import Harness
 from kawin.precipitation.PopulationBalance import PopulationBalanceModel as PBM
@@ -211,7 +211,12 @@ def hist(ctx, seq=("add", "change", "adjust"), orig=4, minb=2, maxb=5):
     for s, op in enumerate(seq):
         tag = "h%d:%s" % (s + 1, op)
         if op == "add":
+            n0 = pbm.bins
+            oldb = [pbm.PSDbounds[i] * 1 for i in range(n0 + 1)]; oldp = [pbm.PSD[i] * 1 for i in range(n0)]
             pbm.addSizeClasses(1)
+            if pbm.bins == n0 + 1 and len(pbm.PSDbounds) == n0 + 2 and len(pbm.PSD) == n0 + 1:
+                ctx.prove(tag + ":existing boundaries untouched", ctx.all([ctx.eq(pbm.PSDbounds[i], oldb[i]) for i in range(n0 + 1)]))
+                ctx.prove(tag + ":existing populations untouched", ctx.all([ctx.eq(pbm.PSD[i], oldp[i]) for i in range(n0)]))
         elif op == "change":
             a = ctx.real("s%d_cMin" % s, (0.3, 1.2)); b = ctx.real("s%d_cMax" % s, (0.8, 3.0)); ctx.assume(a > 0)
             pbm.changeSizeClasses(a, b, minb + 1)
@@ -235,9 +240,63 @@ def hist(ctx, seq=("add", "change", "adjust"), orig=4, minb=2, maxb=5):
             ctx.prove(tag + ":bins <= maxBins", pbm.bins <= pbm.maxBins)
 
 
+def op_load(ctx, bins=(2, 3), where="in12", then=None, cur=2):
+    """load (setPSDtoRecordedTime) from a recorded history written by the real record(): the loaded state satisfies RI, equals the
+    record when the time is a recorded one, and a following extension leaves the loaded classes untouched"""
+    pbm = PBM(1e-10, 1e-9, 4, 2, 4)
+    pbm.enableRecording()
+    recs, times = [], []
+    tprev = 0.0
+    for k, nb in enumerate(bins):
+        b0 = ctx.real("r%d_min" % k, (0.5, 1.0)); w = ctx.real("r%d_w" % k, (0.1, 0.5))
+        ctx.assume(b0 > 0); ctx.assume(w > 0)
+        pbm.min = b0; pbm.max = b0 + nb * w; pbm.bins = nb
+        pbm.reset(False)
+        psd = ctx.reals("r%d_N" % k, nb, (0.0, 5.0))
+        for i in range(nb):
+            ctx.assume(psd[i] >= 0)
+        pbm.PSD = psd
+        t = ctx.real("r%d_t" % k, (1.0 + k, 1.9 + k)); ctx.assume(t > tprev); tprev = t
+        pbm.record(t)
+        recs.append((b0, w, nb, psd)); times.append(t)
+    # the object is somewhere else (another valid grid) when the history is loaded
+    b0 = ctx.real("cur_min", (0.5, 1.0)); w = ctx.real("cur_w", (0.1, 0.5)); ctx.assume(b0 > 0); ctx.assume(w > 0)
+    pbm.min = b0; pbm.max = b0 + cur * w; pbm.bins = cur
+    pbm.reset(False)
+    q = ctx.real("query_time", (0.5, 3.5))
+    k = None
+    if where == "at1":
+        q = times[0]; k = 0
+    elif where == "at2":
+        q = times[1]; k = 1
+    elif where == "after":
+        ctx.assume(q >= times[-1]); k = len(bins) - 1
+    elif where == "in01":
+        ctx.assume(q > 0); ctx.assume(q < times[0])
+    elif where == "in12":
+        ctx.assume(q > times[0]); ctx.assume(q < times[1])
+    with contextlib.redirect_stdout(io.StringIO()):      # the loader prints a notice outside the recorded range
+        pbm.setPSDtoRecordedTime(q)
+    prove_ri(ctx, pbm, "load")
+    if k is not None:
+        rb0, rw, nb, rpsd = recs[k]
+        ctx.prove("load:state is the record at a recorded time", pbm.bins == nb and
+                  ctx.all([ctx.eq(pbm.PSDbounds[i], rb0 + i * rw) for i in range(nb + 1)] + [ctx.eq(pbm.PSD[i], rpsd[i]) for i in range(nb)]))
+    if where == "in12":
+        nbig = max(bins[0], bins[1])
+        ctx.prove("load:between two records the grid is the one with more classes", pbm.bins == nbig)
+    if then == "add":
+        n0 = pbm.bins
+        oldb = [pbm.PSDbounds[i] * 1 for i in range(n0 + 1)]; oldp = [pbm.PSD[i] * 1 for i in range(n0)]
+        pbm.addSizeClasses(1)
+        prove_ri(ctx, pbm, "load+add")
+        ctx.prove("load+add:existing boundaries untouched", ctx.all([ctx.eq(pbm.PSDbounds[i], oldb[i]) for i in range(n0 + 1)]))
+        ctx.prove("load+add:existing populations untouched", ctx.all([ctx.eq(pbm.PSD[i], oldp[i]) for i in range(n0)]))
+
+
 _ALL = [PBM.reset, PBM.addSizeClasses, PBM.changeSizeClasses, PBM.adjustSizeClassesEuler, PBM.UpdatePBMEuler, PBM.createBackup,
         PBM.revert, PBM.MomentFromN, PBM.CumulativeMomentFromN, PBM.WeightedMomentFromN, PBM.CumulativeWeightedMomentFromN,
-        PBM.ThirdMoment, PBM.__init__]
+        PBM.ThirdMoment, PBM.__init__, PBM.enableRecording, PBM.record, PBM.setPSDtoRecordedTime, PBM._grabPSDfromIndex]
 _A = ["pre-state satisfies RI (uniform grid min + i*w, 0 < min, w > 0, populations >= 0); real arithmetic",
       "bin-count configurations are small concrete integers chosen so that every branch of adjustSizeClassesEuler is reachable"]
 _seqs3 = [list(s) for s in itertools.product(("add", "change", "adjust", "update", "backup", "revert", "reset"), repeat=3)
@@ -263,9 +322,15 @@ HARNESSES = [
     Harness("C08.op_backup_revert", op_backup_revert, functions=_ALL, assumptions=_A, params={"quick": [{"n": 2, "k": 1}], "thorough": [{"n": 3, "k": 2}]}),
     Harness("C08.op_backup_isolated", op_backup_isolated, functions=_ALL, assumptions=_A, params={"quick": [{"n": 2}], "thorough": [{"n": 4}]}),
     Harness("C08.moment_purity", moment_purity, functions=_ALL, assumptions=_A, params={"quick": [{"n": 3}], "thorough": [{"n": 5}]}),
+    Harness("C08.op_load", op_load, functions=_ALL, assumptions=_A + ["the recorded history is written by the real record(); record times strictly increase"],
+            bounds={"records": 2, "classes per record": "bins"}, opts={"ob_timeout": 30.0, "max_paths": 400}, budget={"quick": 120.0, "thorough": 900.0},
+            params={"quick": [{"bins": [2, 3], "where": "in12", "then": "add"}, {"bins": [3, 2], "where": "at1", "then": "add"},
+                              {"bins": [2, 2], "where": "after", "then": "add"}],
+                    "thorough": [{"bins": list(b), "where": wh, "then": th} for b in ((2, 3), (3, 2), (3, 3), (2, 4)) for wh in ("in01", "in12", "at1", "at2", "after", "any")
+                                 for th in (None, "add")]}),
     Harness("C08.hist", hist, functions=_ALL, assumptions=["histories start from the constructor; operation arguments symbolic"],
             opts={"ob_timeout": 20.0, "max_paths": 300}, budget={"quick": 120.0, "thorough": 900.0}, validate=1,
             params={"quick": [{"seq": ["add", "adjust"]}, {"seq": ["update", "adjust", "add"]}, {"seq": ["backup", "add", "revert"]}, {"seq": ["backup", "change", "revert"]},
-                              {"seq": ["backup", "reset", "revert"]}],
-                    "thorough": [{"seq": s} for s in _seqs3[::5]]}),
+                              {"seq": ["backup", "reset", "revert"]}, {"seq": ["backup", "change", "revert", "add"]}],
+                    "thorough": [{"seq": s} for s in _seqs3]}),
 ]
